@@ -908,6 +908,7 @@ def main(ctx):
         from harness import kernels
 
         kernels.check_sym(ctx, files={'emissions/gse.py', 'emissions/apu.py'})
+        check_vector_kernels(ctx, apus, ctx.scale(quick=40, thorough=600))
     finally:
         try:
             Config.reset()
@@ -1011,3 +1012,168 @@ def replay(ctx, path):
           f'n_descent={case["traj"]["n_descent"]} -> {"VIOLATION reproduced" if bad else "all clauses hold"}'
           + (f'; model and implementation differ in {ndiff} place(s)' if ndiff else ''))
     return 1 if (bad or ndiff) else 0
+
+
+# ------------------------------------------------------------------------------------------------ vector kernels (translator)
+def check_vector_kernels(ctx, apus, n_cases: int):
+    """Validates the vector kernels regenerated from emission.py / trajectory.py (pykern, third generation): the real functions
+    run on generated flights under generated configurations; inputs and targets are read from the live calls and frames (the
+    index arrays BEFORE the window zeroing are copied when the running frame reaches the `idx_slice = …` line), the generated
+    list definitions run on the same bit patterns (`kern.evalv`), results compared element by element."""
+    import ast
+    import sys
+
+    from AEIC.config import Config, config
+    from harness import kernels as K
+    from harness.common import close, f2u, pykern, u2f
+
+    g, errors = pykern.translate_all()
+    names = ['segment_fuel_burn', 'lifecycle_co2', 'species_total', 'traj_emissions', 'traj_indices', 'traj_fuel_burn',
+             'traj_window_lo', 'traj_window_hi']
+    specs = {k.name: k for k in pykern.SYM_KERNELS if k.name in names}
+    sm = ctx.extra.setdefault('kernels', {}).setdefault('vector', {'kernels': 0, 'points': 0, 'elements': 0, 'mismatches': 0,
+                                                                   'untranslatable': {}})
+    for n in names:
+        if n in errors:
+            sm['untranslatable'][n] = errors[n]
+            ctx.broken_obligation(f'kernel translator: {errors[n]}')
+    present = set(ctx.driver.outs([{'op': 'kern.names'}])[0]['present']) if ctx.driver.available() else set()
+    usable = [n for n in names if n in specs and n not in errors and n in present]
+    for n in names:
+        if n in specs and n not in errors and n not in present:
+            ctx.broken_obligation(f'kernel {n} missing from the built driver (stale build?)')
+    seen: set = set()
+    queue: list = []
+
+    def run(name, attrs=None, vattrs=None, x=(), b=(), v=(), nn=(), want=None, what=''):
+        if name not in usable:
+            return
+        pt = {'x': [f2u(float(t)) for t in x], 'b': [bool(t) for t in b],
+              'v': [[f2u(float(t)) for t in np.asarray(a, dtype=float).ravel()] for a in v], 'n': [int(t) for t in nn]}
+        op = {'op': 'kern.evalv', 'name': name, 'attrs': {k_: f2u(float(t)) for k_, t in (attrs or {}).items()},
+              'vattrs': {k_: [f2u(float(t)) for t in np.asarray(a, dtype=float).ravel()] for k_, a in (vattrs or {}).items()},
+              'pts': [pt]}
+        queue.append((name, op, [float(t) for t in np.asarray(want, dtype=float).ravel()], what))
+
+    def flush():
+        if not queue:
+            return
+        outs = ctx.driver.outs([q[1] for q in queue])
+        for (name, op, w, what), o in zip(queue, outs):
+            have = [u2f(t) for t in o[0]]
+            seen.add(name)
+            sm['points'] += 1
+            sm['elements'] += len(w)
+            ctx.evaluations += 1
+            if not (len(w) == len(have) and all(close(a, c, 1e-9, 1e-300) for a, c in zip(w, have))):
+                sm['mismatches'] += 1
+                if sm['mismatches'] <= 5:
+                    ctx.diverge(f'kernel {name} (vector translation of {specs[name].file}:{specs[name].func}) vs implementation',
+                                {'kernel': name, 'what': what, 'op': op},
+                                f'implementation {w[:8]!r} vs translated kernel {have[:8]!r}')
+        queue.clear()
+
+    import AEIC.emissions.emission as em_mod
+    import AEIC.emissions.trajectory as tr_mod
+    from AEIC.config.emissions import ClimbDescentMode
+
+    # the line of `idx_slice = _trajectory_slice(traj)` in get_trajectory_emissions (where the unwindowed indices are copied)
+    mod = pykern.Module.get('emissions/trajectory.py')
+    fn_ast = mod.funcs['get_trajectory_emissions']
+    slice_line = next((st.lineno for st in fn_ast.body if isinstance(st, ast.Assign) and any(
+        isinstance(t, ast.Name) and t.id == 'idx_slice' for t in st.targets)), None)
+    if slice_line is None and any(n in usable for n in ('traj_emissions', 'traj_indices', 'traj_fuel_burn')):
+        ctx.diverge('kernel scenario', {'group': 'get_trajectory_emissions'}, 'no `idx_slice = …` statement to observe the indices at')
+    code_te = K._unwrap(tr_mod.get_trajectory_emissions).__code__
+    code_ce = K._unwrap(em_mod.compute_emissions).__code__
+
+    for i in range(n_cases):
+        case = gen_case(ctx.rng, 9_000_000 + i, apus)
+        mode = 'lto' if i % 2 else 'trajectory'
+        cfg = dict(case['cfg'], climb_descent_mode=mode, fuel='conventional_jetA')
+        try:
+            Config.reset()
+        except Exception:
+            pass
+        try:
+            Config.load(emissions=cfg, data_path_overrides=[REPO / 'tests' / 'data'])
+            pm, fuel, tr = build(case)
+            snap: dict = {}
+
+            def local_te(frame, event, arg):
+                if event == 'line' and frame.f_lineno == slice_line and 'pre' not in snap:
+                    snap['pre'] = {s: np.array(a, dtype=float, copy=True) for s, a in frame.f_locals['indices'].items()}
+                    snap['fb'] = np.array(frame.f_locals['fuel_burn_per_segment'], dtype=float, copy=True)
+                elif event == 'return':
+                    loc = frame.f_locals
+                    if 'idx_slice' in loc:
+                        snap['slice'] = loc['idx_slice']
+                        snap['post_idx'] = {s: np.array(a, dtype=float, copy=True) for s, a in loc['indices'].items()}
+                        snap['post_em'] = {s: np.array(a, dtype=float, copy=True) for s, a in loc['emissions'].items()}
+                        snap['tfb'] = float(loc['total_fuel_burn'])
+                return local_te
+
+            def local_ce(frame, event, arg):
+                if event == 'return' and 'fuel_burn_per_segment' in frame.f_locals:
+                    snap['burn'] = np.array(frame.f_locals['fuel_burn_per_segment'], dtype=float, copy=True)
+                return local_ce
+
+            def tracer(frame, event, arg):
+                if event == 'call' and frame.f_code is code_te:
+                    return local_te
+                if event == 'call' and frame.f_code is code_ce:
+                    return local_ce
+                return None
+
+            old = sys.gettrace()
+            sys.settrace(tracer)
+            try:
+                with np.errstate(all='ignore'), contextlib.redirect_stdout(io.StringIO()):
+                    E = em_mod.compute_emissions(pm, fuel, tr)
+            except Exception:
+                ctx.count('vector_kernel_scenario_refused')
+                continue
+            finally:
+                sys.settrace(old)
+            fm = np.array(tr.fuel_mass, dtype=float)
+            if 'burn' in snap:
+                run('segment_fuel_burn', vattrs={'traj.fuel_mass': fm}, want=snap['burn'], what='compute_emissions')
+            if 'slice' in snap and 'pre' in snap:
+                lo, hi = snap['slice'].start, snap['slice'].stop
+                if lo is not None and hi is not None and 0 <= lo and 0 <= hi:
+                    for s_, pre in snap['pre'].items():
+                        v = [pre, snap['fb']]
+                        run('traj_indices', v=v, nn=[lo, hi], want=snap['post_idx'][s_], what=f'{s_.name} window [{lo},{hi})')
+                        run('traj_emissions', v=v, nn=[lo, hi], want=snap['post_em'][s_], what=f'{s_.name} window [{lo},{hi})')
+                    run('traj_fuel_burn', v=[next(iter(snap['pre'].values()), snap['fb']), snap['fb']], nn=[lo, hi], want=[snap['tfb']])
+            # _trajectory_slice on the trajectory itself and on varied climb / descent counts
+            lto_mode = config.emissions.climb_descent_mode != ClimbDescentMode.TRAJECTORY
+            n = len(tr)
+            for nc, nd in {(tr.n_climb, tr.n_descent), (0, 0), (n, 0), (0, n), (n // 2, n - n // 2)}:
+                t2 = _Traj()
+                t2._n, t2.n_climb, t2.n_descent = n, nc, nd
+                sl = tr_mod._trajectory_slice(t2)
+                run('traj_window_lo', b=[lto_mode], nn=[n, nc, nd], want=[sl.start])
+                run('traj_window_hi', b=[lto_mode], nn=[n, nc, nd], want=[sl.stop])
+            # sum_total_emissions on the components of this inventory
+            tot = em_mod.sum_total_emissions(E.trajectory_emissions, E.lto_emissions, E.apu_emissions, E.gse_emissions)
+            for s_ in tot:
+                tv = E.trajectory_emissions[s_] if s_ in E.trajectory_emissions else None
+                lt = E.lto_emissions[s_] if s_ in E.lto_emissions else None
+                run('species_total', x=[0.0 if lt is None else lt.sum(), E.apu_emissions[s_] if s_ in E.apu_emissions else 0.0,
+                                        E.gse_emissions[s_] if s_ in E.gse_emissions else 0.0],
+                    v=[[] if tv is None else tv],
+                    b=[tv is not None, lt is not None, bool(config.emissions.apu_enabled), s_ in E.apu_emissions,
+                       bool(config.emissions.gse_enabled), s_ in E.gse_emissions], want=[tot[s_]], what=s_.name)
+            if fuel.lifecycle_CO2 is not None and len(fm) > 0:
+                run('lifecycle_co2', attrs={'fuel.lifecycle_CO2': fuel.lifecycle_CO2, 'fuel.energy_MJ_per_kg': fuel.energy_MJ_per_kg},
+                    vattrs={'traj.fuel_mass': fm}, want=[em_mod.get_lifecycle_emissions(fuel, tr)])
+        finally:
+            try:
+                Config.reset()
+            except Exception:
+                pass
+    flush()
+    sm['kernels'] = len(set(sm.get('names', [])) | seen)
+    sm['names'] = sorted(set(sm.get('names', [])) | seen)
+    ctx.count('vec_kernel_points', sm['points'])
